@@ -582,7 +582,9 @@ class Extractor:
             k += m.end()
             if k >= len(text):
                 break
-            if text.startswith('proof', k):
+            if re.match(r'let\s+ghost\b', text[k:]):
+                k = masked.index(';', k) + 1
+            elif text.startswith('proof', k):
                 o = masked.find('{', k)
                 k = match_brace(masked, o) + 1
             elif text.startswith('assert', k):
